@@ -24,6 +24,7 @@ ENC = "structure/io/pdbx/encoding.pyx"
 LIMITS = {"int8": (-128, 127), "uint8": (0, 255), "int16": (-32768, 32767), "uint16": (0, 65535)}
 
 ASSUMPTIONS = [
+    "RunLengthEncoding: NB, RS, PS are the ghost functions of the docstring further down (recursion equations + their induction lemmas); arrays of fewer than 2**30 elements (the C int output index would overflow beyond); decode: positive run lengths and a decoded length that fits a C int (what encode() writes)",
     "L, T, G are the recursively defined ghost functions stated in the module docstring (definitional axioms over the immutable input array)",
     "that decode(encode(x)) == x follows from the two chunk specifications is the composition lemma (argued in DESIGN.md, not mechanised)",
     "np.iinfo / np.zeros / np.asarray follow their NumPy meaning (library contracts)",
@@ -31,7 +32,7 @@ ASSUMPTIONS = [
     "the packed length L(n) fits a C int (< 2^31); monotonicity of L and T is the induction lemma of their recursion equations",
 ]
 UNVERIFIED = [
-    "RunLengthEncoding, DeltaEncoding, FixedPointEncoding, IntervalQuantizationEncoding, StringArrayEncoding, ByteArrayEncoding, _safe_cast",
+    "DeltaEncoding, FixedPointEncoding, IntervalQuantizationEncoding, StringArrayEncoding, ByteArrayEncoding (NumPy one-liners / string handling), _safe_cast",
     "compress.py (_find_best_integer_compression, _to_smallest_integer_type, _get_decimal_places), bcif.py serialisation",
 ]
 
@@ -236,3 +237,140 @@ MIN_OBLIGATIONS = 20
 
 from pyvc.api import bounded_via_script
 bounded = bounded_via_script("C05")
+
+
+# ==========================================================================
+# RunLengthEncoding._encode / _decode  (encoding.pyx, re-extracted on every run)
+#
+#   NB(i) = number of run boundaries among positions 1 .. i-1   (D[p] != D[p-1])
+#   RS(i) = start index of the run that contains position i-1
+#   encode: pair number NB(p) of the output is (D[p-1], p - RS(p)) for every boundary p and for p = n
+#   decode: PS(t) = sum of the run lengths of the pairs before t; out[q] == value of pair t
+#           for PS(t) <= q < PS(t+1)
+
+NB = z3.Function("NB", z3.IntSort(), z3.IntSort())
+RS = z3.Function("RS", z3.IntSort(), z3.IntSort())
+PS = z3.Function("PS", z3.IntSort(), z3.IntSort())
+
+
+def mk_rle(I):
+    cls = get_class(I, ENC, "RunLengthEncoding")
+    return Obj(cls, {"src_size": None, "src_type": None})
+
+
+def setup_rle_encode(dtype):
+    def setup(I):
+        # n == 0: recorded known finding C05-empty-array-rejected; n >= 2**30: the C int `j` (up to 2n) would overflow
+        n = sym_int(I, "n", 1, 2 ** 30 - 1)
+        data = SymArr("data", dtype, [n], readonly=True).view(memview=True)
+        D = data.arr
+        k, k2 = z3.Ints("k!N k2!N")
+        bnd = lambda p: z3.And(p >= 1, z3.Select(D, p) != z3.Select(D, p - 1))
+        A = I.ctx.assume
+        A(z3.And(NB(0) == 0, NB(1) == 0, RS(0) == 0, RS(1) == 0))
+        A(z3.ForAll([k], z3.Implies(k >= 1, NB(k + 1) == NB(k) + z3.If(bnd(k), 1, 0))))
+        A(z3.ForAll([k], z3.Implies(k >= 1, RS(k + 1) == z3.If(bnd(k), k, RS(k)))))
+        # induction lemmas of the recursion equations
+        A(z3.ForAll([k], z3.Implies(k >= 1, z3.And(NB(k) >= 0, NB(k) <= k - 1, RS(k) >= 0, RS(k) < k))))
+        A(z3.ForAll([k, k2], z3.Implies(z3.And(k >= 0, k <= k2), NB(k) <= NB(k2))))
+        A(z3.ForAll([k, k2], z3.Implies(z3.And(k >= 1, k < k2, bnd(k)), NB(k) < NB(k2))))
+        g = {"n": n, "D": D, "bnd": bnd}
+        I.ghost["rle"] = g
+        return {"args": [mk_rle(I), data], "ghost": g}
+    return setup
+
+
+def rle_pairs_done(g, Q, upto):
+    """every run that ended before position `upto` has its (value, length) pair in place"""
+    p = z3.Int("p!r")
+    D = g["D"]
+    return z3.ForAll([p], z3.Implies(z3.And(p >= 1, p < upto, g["bnd"](p)),
+                                     z3.And(z3.Select(Q, 2 * NB(p)) == z3.Select(D, p - 1),
+                                            z3.Select(Q, 2 * NB(p) + 1) == p - RS(p))))
+
+
+def inv_rle_encode(I, env):
+    g = I.ghost["rle"]
+    i = zint(I.unC(env.lookup("i")))
+    j = zint(I.unC(env.lookup("j")))
+    val = zint(I.unC(env.lookup("val")))
+    rl = zint(I.unC(env.lookup("run_length")))
+    Q = env.lookup("output").arr
+    D = g["D"]
+    return z3.And(i >= 0, i <= g["n"], j == 2 * NB(i), rl == i - RS(i),
+                  val == z3.Select(D, z3.If(i >= 1, i - 1, 0)), rle_pairs_done(g, Q, i))
+
+
+def ens_rle_encode(I, env):
+    g = I.ghost["rle"]
+    res = env.vars["result"]
+    n, D = g["n"], g["D"]
+    p = I.ctx.fresh_int("p")
+    Q = res.arr
+    return [("length", natives.eq(I, res.shape[0], 2 * NB(n) + 2)),
+            ("pair_of_every_finished_run", implies(z3.And(p >= 1, p < n, g["bnd"](p)),
+                                                   z3.And(z3.Select(Q, 2 * NB(p)) == z3.Select(D, p - 1),
+                                                          z3.Select(Q, 2 * NB(p) + 1) == p - RS(p)))),
+            ("pair_of_the_last_run", z3.And(z3.Select(Q, 2 * NB(n)) == z3.Select(D, n - 1),
+                                            z3.Select(Q, 2 * NB(n) + 1) == n - RS(n)))]
+
+
+def setup_rle_decode(in_t, out_t, with_size):
+    def setup(I):
+        m = sym_int(I, "pairs", 0, 2 ** 29)
+        data = SymArr("data", in_t, [2 * m], readonly=True).view(memview=True)
+        out_type = SymArr("output_type", out_t, [0]).view(memview=True)
+        P = data.arr
+        t, t2 = z3.Ints("t!P t2!P")
+        A = I.ctx.assume
+        A(PS(0) == 0)
+        A(z3.ForAll([t], z3.Implies(t >= 0, PS(t + 1) == PS(t) + z3.Select(P, 2 * t + 1))))
+        # what encode() writes: positive run lengths; the decoded length fits a C int
+        A(z3.ForAll([t], z3.Implies(z3.And(t >= 0, t < m), z3.Select(P, 2 * t + 1) >= 1)))
+        A(z3.ForAll([t, t2], z3.Implies(z3.And(t >= 0, t <= t2, t2 <= m), PS(t) <= PS(t2))))      # induction lemma
+        A(z3.And(PS(m) >= 0, PS(m) <= 2 ** 31 - 1))
+        enc = mk_rle(I)
+        if with_size:
+            enc.attrs["src_size"] = PS(m)
+        g = {"m": m, "P": P}
+        I.ghost["rld"] = g
+        return {"args": [enc, data, out_type], "ghost": g}
+    return setup
+
+
+def inv_rle_len(I, env):
+    g = I.ghost["rld"]
+    i = zint(I.unC(env.lookup("i")))
+    return z3.And(i >= 1, i % 2 == 1, zint(I.unC(env.lookup("length"))) == PS((i - 1) / 2), (i - 1) / 2 <= g["m"])
+
+
+def inv_rle_fill(I, env):
+    g = I.ghost["rld"]
+    i = zint(I.unC(env.lookup("i")))
+    j = zint(I.unC(env.lookup("j")))
+    out = env.lookup("output").arr
+    t, q = z3.Ints("t!f q!f")
+    return z3.And(i >= 0, i % 2 == 0, i / 2 <= g["m"], j == PS(i / 2),
+                  z3.ForAll([t, q], z3.Implies(z3.And(t >= 0, t < i / 2, q >= PS(t), q < PS(t + 1)),
+                                               z3.Select(out, q) == z3.Select(g["P"], 2 * t))))
+
+
+def ens_rle_decode(I, env):
+    g = I.ghost["rld"]
+    res = env.vars["result"]
+    t, q = I.ctx.fresh_int("t"), I.ctx.fresh_int("q")
+    return [("length", natives.eq(I, res.shape[0], PS(g["m"]))),
+            ("runs_expanded", implies(z3.And(t >= 0, t < g["m"], q >= PS(t), q < PS(t + 1)),
+                                      z3.Select(res.arr, q) == z3.Select(g["P"], 2 * t)))]
+
+
+for _dt in ("int32", "uint8"):
+    CASES.append(Case(ENC + "::RunLengthEncoding._encode", f"Integer={_dt}", setup=setup_rle_encode(_dt),
+                      loops={0: {"invariant": [inv_rle_encode]}},
+                      ensures=[("runs", ens_rle_encode)]))
+CASES.append(Case(ENC + "::RunLengthEncoding._decode", "src_size given", setup=setup_rle_decode("int32", "int32", True),
+                  loops={0: {"invariant": [inv_rle_len]}, 1: {"invariant": [inv_rle_fill]}},
+                  ensures=[("expansion", ens_rle_decode)]))
+CASES.append(Case(ENC + "::RunLengthEncoding._decode", "src_size from the run lengths", setup=setup_rle_decode("int32", "int32", False),
+                  loops={0: {"invariant": [inv_rle_len]}, 1: {"invariant": [inv_rle_fill]}},
+                  ensures=[("expansion", ens_rle_decode)]))
